@@ -309,13 +309,18 @@ func negotiateSession(ctx context.Context, location, origin jid.JID, rw io.ReadW
 			}
 		}
 		mask, rw, data, err = negotiate(ctx, &s.in.Info, &s.out.Info, s, data)
-		if err != nil {
-			return s, err
-		}
 		// A cancellation that arrived while no read or write was blocked has not
 		// interrupted anything (the deadline set for it is cleared again at
 		// once): do not carry on, and do not report the session established.
-		if err = ctx.Err(); err != nil {
+		if err == nil {
+			err = ctx.Err()
+		}
+		if err != nil {
+			// A feature negotiated before the failing step may already have marked
+			// the session ready (feature negotiation applies the state bits of each
+			// feature as it goes): a session that is returned with an error never
+			// is.
+			s.state &^= Ready
 			return s, err
 		}
 		if rw != nil {
